@@ -114,8 +114,95 @@ impl Sub for Trapdoor {
     }
 }
 
+// ------------------------------------------------------------------ keys from OS randomness
+
+/// `SecretKey::generate()` (seed drawn from the operating system) and the public key derived from
+/// it: the same invariants as for seeded generation. The key is not reproducible from the case, so
+/// a failure is handed on as a `key_bytes` case carrying the encodings.
+#[derive(Clone, Debug, Serialize, Deserialize)]
+pub struct NaturalCase {
+    n: usize,
+    index: u32,
+}
+
+pub struct NaturalKey;
+
+impl Sub for NaturalKey {
+    type Case = NaturalCase;
+    fn name(&self) -> &'static str {
+        "generate_from_os_randomness"
+    }
+    fn max_shrink_iters(&self) -> u32 {
+        0
+    }
+    fn batch(&self) -> usize {
+        1
+    }
+    fn strategy(&self, _env: &Env) -> BoxedStrategy<NaturalCase> {
+        (prop_oneof![3 => Just(512usize), 1 => Just(1024usize)], any::<u32>()).prop_map(|(n, index)| NaturalCase { n, index }).boxed()
+    }
+    fn check(&self, c: &NaturalCase, st: &mut Stats) -> Result<(), Fail> {
+        let n = c.n;
+        let (sk, pk) = api::generate(n);
+        let (skb, pkb) = (sk.to_bytes(), pk.to_bytes());
+        let minimal = json!({"n": n, "sk": crate::util::hex(&skb), "pk": crate::util::hex(&pkb)});
+        let (f, g, cf, cg) = sk.fg();
+        check_basis(n, &f, &g, &cf, &cg, &sk.leaves(), "generated-from-os-randomness", st).map_err(|e| e.with_minimal(minimal.clone()).into_sub("key_bytes"))?;
+        KeyBytes.check(&BytesCase { n, sk: crate::util::Hex(skb.clone()), pk: crate::util::Hex(pkb) }, st).map_err(|e| e.with_minimal(minimal.clone()).into_sub("key_bytes"))?;
+        // a second call gives another key
+        let (sk2, _) = api::generate(n);
+        ensure!(sk2.to_bytes() != skb, "key:os-randomness-repeats", "two consecutive calls of SecretKey::generate() returned the same key");
+        st.nontrivial(&(n, skb));
+        st.count(&format!("keys_from_os_randomness_{}", n));
+        Ok(())
+    }
+}
+
+/// The byte-level part of the invariants, on stored encodings (replay form of a failing
+/// `generate_from_os_randomness` case): G is recomputed as g F / f mod q, centred.
+#[derive(Clone, Debug, Serialize, Deserialize)]
+pub struct BytesCase {
+    n: usize,
+    sk: crate::util::Hex,
+    pk: crate::util::Hex,
+}
+
+pub struct KeyBytes;
+
+impl Sub for KeyBytes {
+    type Case = BytesCase;
+    fn name(&self) -> &'static str {
+        "key_bytes"
+    }
+    fn strategy(&self, _env: &Env) -> BoxedStrategy<BytesCase> {
+        // replay form only: generated cases come from `generate_from_os_randomness`
+        Just(BytesCase { n: 512, sk: crate::util::Hex(vec![]), pk: crate::util::Hex(vec![]) }).boxed()
+    }
+    fn check(&self, c: &BytesCase, st: &mut Stats) -> Result<(), Fail> {
+        let n = c.n;
+        if c.sk.0.is_empty() {
+            return Ok(());
+        }
+        let (f, g, cf) = keys::decode_sk(&c.sk.0, n).map_err(|e| Fail::new("key:sk-bytes", format!("the generated secret key does not parse as a specification secret key: {:?}", e)))?;
+        let h = keys::decode_pk(&c.pk.0, n).map_err(|e| Fail::new("key:pk-bytes", format!("the generated public key does not parse as a specification public key: {:?}", e)))?;
+        ensure!(zq::evaluate_at_roots(&f).iter().all(|&x| x != 0), "key:f-not-invertible:bytes", "f vanishes at a root of X^n+1 mod q");
+        let cg: Vec<i64> = zq::ring_div(&zq::negacyclic_mul_fast(&g, &cf), &f).ok_or_else(|| Fail::new("key:f-not-invertible:bytes", "f is not invertible"))?.iter().map(|&x| zq::centred(x)).collect();
+        let lhs = lattice::ntru_lhs(&f, &g, &cf, &cg);
+        let bad = (0..n).find(|&i| lhs[i] != if i == 0 { Q } else { 0 });
+        ensure!(bad.is_none(), "key:ntru-equation:bytes", "with G = g F / f mod q (centred): (f G - g F)[{}] = {}", bad.unwrap_or(0), lhs[bad.unwrap_or(0)]);
+        let hf = zq::negacyclic_mul_fast(&h, &f);
+        let bad = (0..n).find(|&i| hf[i] != zq::modq(g[i]));
+        ensure!(bad.is_none(), "key:public-key", "h f != g mod q at coefficient {}", bad.unwrap_or(0));
+        let sk = api::Sk::from_bytes(n, &c.sk.0).map_err(|e| Fail::new("key:own-bytes-rejected", format!("the key's own encoding does not decode: {}", e)))?;
+        let (f2, g2, cf2, cg2) = sk.fg();
+        check_basis(n, &f2, &g2, &cf2, &cg2, &sk.leaves(), "decoded-from-own-bytes", st)?;
+        st.count("key_encodings_checked");
+        Ok(())
+    }
+}
+
 const META: Meta = Meta {
-    rule: "proptest (variant, 32-byte seed) with random seeds plus all-zero, all-0xFF and single-bit seeds; each case runs the whole key generation and checks, on the secret basis read through the hook and on the public/secret key bytes: f G - g F = q exactly (i64 schoolbook), f(psi^(2k+1)) != 0 mod q at every root, h f = g mod q with h parsed from the public-key bytes, every tree leaf in [sigma_min, sigma_max] (relative slack 1e-9 for rounding), the same on the key decoded from its own bytes, and on a subset the sorted leaves equal sigma/||b~_i|| from a plain Gram-Schmidt of the 2n x 2n basis (rows in bit-reversed rotation order) within 1e-6 with max ||b~_i|| <= 1.17 sqrt(q). Every distinct (variant, seed) is non-trivial (key generation always runs the whole pipeline).",
+    rule: "proptest (variant, 32-byte seed) with random seeds plus all-zero, all-0xFF and single-bit seeds; each case runs the whole key generation and checks, on the secret basis read through the hook and on the public/secret key bytes: f G - g F = q exactly (i64 schoolbook), f(psi^(2k+1)) != 0 mod q at every root, h f = g mod q with h parsed from the public-key bytes, every tree leaf in [sigma_min, sigma_max] (relative slack 1e-9 for rounding), the same on the key decoded from its own bytes, and on a subset the sorted leaves equal sigma/||b~_i|| from a plain Gram-Schmidt of the 2n x 2n basis (rows in bit-reversed rotation order) within 1e-6 with max ||b~_i|| <= 1.17 sqrt(q). The same invariants hold for keys made by SecretKey::generate() (seed from the operating system; a failing key is written out as its two encodings and replayed through the byte-level checks: G recomputed as g F / f mod q). Every distinct (variant, seed) or key is non-trivial (key generation always runs the whole pipeline).",
     assumptions: &[
         "oracle: exact integer arithmetic (refimpl::lattice, refimpl::zq), specification parameters (refimpl::params), plain modified Gram-Schmidt in f64",
         "the hook accessors return the in-memory basis and tree leaves unchanged",
@@ -124,7 +211,7 @@ const META: Meta = Meta {
 
 pub fn run(env: &Env, replay: Option<&Path>) -> i32 {
     let mut report = Report::new();
-    let subs: [&dyn DynSub; 1] = [&Trapdoor];
+    let subs: [&dyn DynSub; 3] = [&Trapdoor, &NaturalKey, &KeyBytes];
     if let Some(p) = replay {
         if let Err(e) = replay_file(env, &subs, p, &mut report) {
             eprintln!("harness: {}", e);
@@ -148,6 +235,7 @@ pub fn run(env: &Env, replay: Option<&Path>) -> i32 {
             r
         });
         drive(env, &Trapdoor, env.tier.pick(128, 5000), &mut report);
+        drive(env, &NaturalKey, env.tier.pick(16, 400), &mut report);
         h.join().expect("Gram-Schmidt side thread")
     });
     report.merge(side);
